@@ -126,22 +126,34 @@ def worker(spec):
     elaborate_context.register(WC)(do_elab)
 
     # generator-based managers: two functions compiled from the same source => equal code objects
-    SRC = "def gcm(i):\n    yield i\n"
-    ns1, ns2 = {}, {}
+    class InnerMgr(object):
+        def __enter__(self):
+            return self
+
+        def __exit__(self, *e):
+            return False
+
+    INNER = InnerMgr()
+    SRC = "def gcm(i):\n    with INNER:\n        yield i\n"
+    ns1, ns2 = {"INNER": INNER}, {"INNER": INNER}
     exec(compile(SRC, "<gcm>", "exec"), ns1)
     exec(compile(SRC, "<gcm>", "exec"), ns2)
     assert ns1["gcm"].__code__ == ns2["gcm"].__code__ and ns1["gcm"].__code__ is not ns2["gcm"].__code__
     gcm_registered = contextlib.contextmanager(ns1["gcm"])
     gcm_equal_twin = contextlib.contextmanager(ns2["gcm"])
-    ASRC = "async def agcm(i):\n    yield i\n"
-    ns3 = {}
+    ASRC = "async def agcm(i):\n    with INNER:\n        yield i\n"
+    ns3 = {"INNER": INNER}
     exec(compile(ASRC, "<agcm>", "exec"), ns3)
     agcm_registered = contextlib.asynccontextmanager(ns3["agcm"])
 
     def gen_hook(frame, ctx):
         mgr = ctx.obj
-        LOG.append(("unwrap", id(mgr)) + snap(ctx, mgr) + (frame.pyframe is (getattr(mgr.gen, "gi_frame", None) or
-                                                                            getattr(mgr.gen, "ag_frame", None)),))
+        own = frame.pyframe is (getattr(mgr.gen, "gi_frame", None) or getattr(mgr.gen, "ag_frame", None))
+        # hooks commonly find the wrapped manager through frame.contexts (stackscope's own
+        # pytest-trio glue does): the frame must carry the generator's contexts on *both* lookup
+        # paths (inner_stack present, and exiting)
+        sees_contexts = [c.obj for c in frame.contexts] == [INNER]
+        LOG.append(("unwrap", id(mgr)) + snap(ctx, mgr) + (own and sees_contexts,))
         return PLAN[id(mgr)]["unwrap"]
 
     unwrap_context_generator.register(ns1["gcm"])(gen_hook)
@@ -305,7 +317,7 @@ def worker(spec):
                 if first_for_mgr and x[1] != id(first) and x[0] == "elab" and not (x[3] and x[4]):
                     probs.append("call %d: inner_stack/children not reset before re-elaboration" % j)
                 if len(x) > 6 and not x[6]:
-                    probs.append("call %d: generator hook did not receive the generator's own frame" % j)
+                    probs.append("call %d: generator hook did not receive the generator's own frame with its contexts" % j)
             last = model_state.get("last_elab")
             if final is not None and last is not None and not is_gcm(last):
                 # description/children are those set by the hook that elaborated last (if an elaborate
